@@ -6,6 +6,7 @@ package c05
 import (
 	"bytes"
 	"context"
+	"time"
 	"errors"
 	"fmt"
 	"sort"
@@ -71,6 +72,10 @@ type op struct {
 	// with its own caches on the same backend.  Its writes are KForeign steps of the trace.
 	Node int `json:"node,omitempty"`
 	// filled by the run
+	// Hold (reapply_wlog): the re-applier's storage write is held at its entry under this name while the Inner ops
+	// run (other partitions of the application), then it is released; op "release" lets a named hold go earlier
+	Hold  string `json:"hold,omitempty"`
+	Inner []*op  `json:"inner,omitempty"`
 	// Fault (plog): the storage write of this PutPlog is made to fail before it has any effect
 	Fault bool `json:"fault,omitempty"`
 	Obs   *stepObs `json:"observed,omitempty"`
@@ -160,6 +165,25 @@ type runner struct {
 	staleKeys map[string]bool
 	// s_mode of the next step (0 ordinary; 1/2 re-apply of an event whose PutPlog was refused / failed; 3 injected fault)
 	mode uint64
+	// window: number of re-applier WLog writes in flight (held); afterOverlap: two of them have overlapped
+	window       int
+	afterOverlap bool
+	// the held storage call of the step whose call function is returning (see "reapply_wlog" with Hold)
+	extraCalls []kit.Call
+	innerErr   error
+}
+
+// stepMode: the s_mode of the step being emitted
+func (r *runner) stepMode() uint64 {
+	switch {
+	case r.mode != 0:
+		return r.mode
+	case r.window > 0:
+		return 4
+	case r.afterOverlap:
+		return 5
+	}
+	return 0
 }
 
 func (r *runner) intern(b []byte, stamp int64) uint64 {
@@ -246,6 +270,7 @@ func resClass(err error, panicked any) (string, string) {
 
 // step executes one observed step: observations before, the call with recording on, observations after
 func (r *runner) step(o *op, kind string, corrupted bool, items []*item, call func() error) error {
+	mode := r.stepMode()
 	for _, it := range items {
 		b, err := r.observe(it)
 		if err != nil {
@@ -259,6 +284,13 @@ func (r *runner) step(o *op, kind string, corrupted bool, items []*item, call fu
 		defer func() { panicked = recover() }()
 		cerr = call()
 	})
+	if r.innerErr != nil {
+		err := r.innerErr
+		r.innerErr = nil
+		return err
+	}
+	calls = append(calls, r.extraCalls...)
+	r.extraCalls = nil
 	res, emsg := resClass(cerr, panicked)
 	// the bytes handed to the storage, per row: from the recorded write calls.  The updates of an
 	// event live in a Go map (cudType.updates): their order in the batch is the order in which
@@ -376,10 +408,11 @@ func (r *runner) step(o *op, kind string, corrupted bool, items []*item, call fu
 		}
 	}
 	o.Obs = so
-	r.steps = append(r.steps, fmt.Sprintf("mkStep %s %d %s %s %s %s", kind, r.mode, kit.Bool(corrupted), kit.List(slots), res, kit.List(callTerms)))
-	so.Mode = r.mode
-	if r.mode != 0 {
-		fmt.Fprintf(&r.shape, "/m%d", r.mode)
+	r.steps = append(r.steps, fmt.Sprintf("mkStep %s %d %s %s %s %s", kind, mode, kit.Bool(corrupted), kit.List(slots), res, kit.List(callTerms)))
+	so.Mode = mode
+	if mode != 0 {
+		fmt.Fprintf(&r.shape, "/m%d", mode)
+		r.tags[fmt.Sprintf("mode:%d", mode)] = true
 	}
 	fmt.Fprintf(&r.shape, "|%s:%d:%s", kind, len(items), res)
 	return nil
@@ -971,7 +1004,57 @@ func (r *runner) runOp(o *op) error {
 		if ra == nil {
 			return r.skip(o, why)
 		}
-		return r.step(o, "KReapplyWlog", ev.spec.Corrupted, []*item{r.wlogItem(ev.spec)}, func() error { return ra.PutWLog() })
+		if o.Hold == "" {
+			return r.step(o, "KReapplyWlog", ev.spec.Corrupted, []*item{r.wlogItem(ev.spec)}, func() error { return ra.PutWLog() })
+		}
+		// the re-applier's storage write is held at its entry; meanwhile the inner ops run - other partitions of the
+		// same application; in the trace they come first (they complete first; they touch other slots)
+		wit := r.wlogItem(ev.spec)
+		return r.step(o, "KReapplyWlog", ev.spec.Corrupted, []*item{wit}, func() error {
+			h := r.rig.newHold(o.Hold, wit.pk, wit.cc)
+			// the step's own storage call is the held one (captured by the hold); the reads the harness makes for
+			// the inner steps are not this step's calls
+			r.rig.recording = false
+			go func() {
+				defer func() {
+					if p := recover(); p != nil {
+						h.done <- fmt.Errorf("panic: %v", p)
+					}
+				}()
+				h.done <- ra.PutWLog()
+			}()
+			select {
+			case <-h.arrived:
+			case h.result = <-h.done:
+				h.finished = true
+				return fmt.Errorf("the re-applier returned without a storage write to hold: %v", h.result)
+			case <-time.After(10 * time.Second):
+				return errors.New("the re-applier did not reach its storage write within 10s")
+			}
+			r.window++
+			for _, in := range o.Inner {
+				if err := r.runOp(in); err != nil {
+					r.innerErr = fmt.Errorf("inner op %s %s: %w", in.Op, in.Name, err)
+					break
+				}
+			}
+			r.window--
+			err := h.letGo()
+			if h.call != nil {
+				r.extraCalls = []kit.Call{*h.call}
+			}
+			return err
+		})
+	case "release":
+		h := r.rig.holdByName(o.Name)
+		if h == nil {
+			return fmt.Errorf("release: no hold %q", o.Name)
+		}
+		if r.window >= 2 {
+			r.afterOverlap = true // two re-appliers' WLog writes were in flight together and this one finishes first
+		}
+		h.letGo()
+		return nil
 	case "rawdel":
 		id, err := r.recID(recSpec{Kind: o.Kind, ID: o.ID})
 		if err != nil {
